@@ -308,10 +308,16 @@ def phy_settings(vname, clk, cl=None, cwl=None, rdimm=False, clam=False):
     if key not in _phycache:
         if len(_phycache) > 256:
             _phycache.clear()
+        import migen.fhdl.tracer as tracer
+        saved = tracer.trace_back
+        # Migen walks the Python stack for every Signal to derive a display name (most of the elaboration time); names are irrelevant here
+        tracer.trace_back = lambda varname=None: [(varname or "sig", 0)]
         try:
             s = VARIANTS[vname]["build"](clk, cl, cwl, rdimm, clam)
         except REJECT as e:
             s = e
+        finally:
+            tracer.trace_back = saved
         _phycache[key] = s
     s = _phycache[key]
     if isinstance(s, Exception):
@@ -745,13 +751,13 @@ def evaluate(case):
 
 def _quiet_ddr3(el):
     return {"MR0": dict(RBT=["sequential"], TM=["normal"]),
-            "MR1": dict(DLL=["enable"], AL=[0], WRLVL=[0], QOFF=["enabled"], RON=[el["ron"]], RTT_NOM=[el["rtt_nom"]], TDQS=[el["tdqs"]]),
+            "MR1": dict(DLL=["enable"], WRLVL=[0], QOFF=["enabled"], RON=[el["ron"]], RTT_NOM=[el["rtt_nom"]], TDQS=[el["tdqs"]]),
             "MR2": dict(PASR=[0], ASR=[0], SRT=[0], RTT_WR=[el["rtt_wr"]]), "MR3": dict(MPR=[0], MPR_LOC=[0])}
 
 
 def _quiet_ddr4(el):
     return {"MR0": dict(RBT=["sequential"], TM=["normal"]),
-            "MR1": dict(DLL=["enable"], AL=[0], WRLVL=[0], QOFF=["enabled"], RON=[el["ron"]], RTT_NOM=[el["rtt_nom"]], TDQS=[el["tdqs"]]),
+            "MR1": dict(DLL=["enable"], WRLVL=[0], QOFF=["enabled"], RON=[el["ron"]], RTT_NOM=[el["rtt_nom"]], TDQS=[el["tdqs"]]),
             "MR2": dict(LPASR=[0], WCRC=[0], RTT_WR=[el["rtt_wr"]]),
             "MR3": dict(MPR=[0], MPR_PAGE=[0], GEARDOWN=[0], PDA=[0], TSR=[0], WCL=[0], MPR_FMT=[0]),
             "MR4": dict((k, [0]) for k in ("MPDM", "TCRR", "TCRM", "IVREF", "CAL", "SRA", "RPT", "RPRE", "WPRE")),
@@ -763,7 +769,7 @@ QUIET = {
     "SDR": lambda el: {"MR": dict(BT=["sequential"], WB=["burst"])},
     "DDR": lambda el: {"MR": dict(BT=["sequential"]), "EMR": dict(DLL=["enable"], QFC=["disable"])},
     "LPDDR": lambda el: {"MR": dict(BT=["sequential"]), "EMR": dict(PASR=["full"])},
-    "DDR2": lambda el: {"MR": dict(BT=["sequential"], TM=["normal"]), "EMR1": dict(DLL=["enable"], AL=[0], QOFF=["enabled"], RDQS=["disable"]),
+    "DDR2": lambda el: {"MR": dict(BT=["sequential"], TM=["normal"]), "EMR1": dict(DLL=["enable"], QOFF=["enabled"], RDQS=["disable"]),
                         "EMR2": dict(PASR=[0], DCC=[0])},
     "DDR3": _quiet_ddr3,
     "DDR4": _quiet_ddr4,
@@ -816,7 +822,7 @@ def cases_of_cell(cell, tier):
     out = []
     for jj, j in enumerate(sel):
         name, sg, fine = pts[j]
-        el = els[(i * 7 + j) % len(els)] if (i + j) % 3 == 0 else None
+        el = els[((i + j) // 3 + 5 * i) % len(els)] if (i + j) % 3 == 0 else None
         rdimm = rd
         if memtype == "DDR4" and not V["rdimm"] and (i + j) % 5 == 0:
             rdimm = dict(pll_bypass=(i + j) % 10 == 0, ca_cs=(i * 5 + j) % 16, odt_cke=(i * 3 + j) % 16, clk=(i + j * 7) % 16)
@@ -829,7 +835,7 @@ def shards(tier, seed):
     nsh = 16
     out = [dict(kind="grid", tier=tier, seed=seed, idx=i, cells=cells[i::nsh]) for i in range(nsh)]
     for i in range(nsh):
-        out.append(dict(kind="hyp", tier=tier, seed=seed * 1000 + i, n=(2000 if tier == "thorough" else 150)))
+        out.append(dict(kind="hyp", tier=tier, seed=seed * 1000 + i, n=(2500 if tier == "thorough" else 150)))
     return out
 
 
@@ -900,18 +906,58 @@ def case_strategy():
     return cases()
 
 
+def _same(fs, clause, key):
+    return [f for f in fs if f["clause"] == clause and f["key"] == key]
+
+
+def minimise(case, fs, col):
+    """deterministic simplification of a failing case (Hypothesis shrinking would elaborate a PHY per attempt): drop options one at a
+    time, then take the simplest module / a round clock, keeping every step that still shows the same (clause, key)"""
+    clause, key = fs[0]["clause"], fs[0]["key"]
+    memtype = VARIANTS[case["phy"]]["memtype"]
+    best, best_fs = dict(case), _same(fs, clause, key)
+    pts = module_points(memtype)
+    steps = [dict(el=None), dict(rdimm=False), dict(clam=False), dict(cl=None, cwl=None), dict(cl=None), dict(cwl=None), dict(fine="1x" if memtype == "DDR4" else None),
+             dict(module=pts[0][0], sg=pts[0][1]), dict(sg="default")]
+    for k in ("rtt_nom", "rtt_wr", "ron", "tdqs"):
+        if case.get("el") and k in case["el"]:
+            steps.append(dict(el=dict((a, b) for a, b in case["el"].items() if a != k)))
+    for unit in (50e6, 10e6, 5e6, 1e6, 1e5, 1e4, 1e3):
+        steps.append(dict(clk=float(round(case["clk"] / unit) * unit)))
+    for st_ in steps:
+        cand = dict(best)
+        cand.update(st_)
+        if cand == best or (cand.get("el") is not None and len(cand["el"]) <= 1):
+            continue
+        try:
+            f2 = _same(col.filter(evaluate(cand)[0]), clause, key)
+        except Exception:
+            continue
+        if f2:
+            best, best_fs = cand, f2
+    return best, best_fs
+
+
 def run_shard(sh):
     col = Collector(ID)
     if sh["kind"] == "grid":
         selfcheck_variants(sorted(set(c[0] for c in sh["cells"])))
-        found = None
+        first = {}                 # clause -> first failing case of this shard
         for cell in sh["cells"]:
             for case in cases_of_cell(cell, sh["tier"]):
                 fs = run_case(case, col)
-                if fs and found is None:
-                    found = (case, fs)
+                for f in fs:
+                    if f["clause"] not in first:
+                        first[f["clause"]] = (case, [g for g in fs if g["clause"] == f["clause"]])
+        found = None
+        if first:
+            # the runner keeps one violation per shard and one replay per clause: let the shards report different clauses
+            clause = sorted(first)[sh["idx"] % len(first)]
+            found = minimise(first[clause][0], first[clause][1], col)
         return _finish(col, found)
-    found = hyp_search(lambda c: run_case(c, col), case_strategy(), sh["seed"], sh["n"], shrink=True)
+    found = hyp_search(lambda c: run_case(c, col), case_strategy(), sh["seed"], sh["n"], shrink=False)
+    if found:
+        found = minimise(found[0], found[1], col)
     return _finish(col, found)
 
 
